@@ -26,7 +26,10 @@ RULE = ("a case = one (data type, labels, rows, namespace configuration, constru
         "over {DNA with character subsets from new_character_subset / concatenate / a parsed SETS block, continuous with "
         "subsets, continuous with negative and exponent values, DNA with gaps, tree list with negative and exponent edge "
         "lengths} containing a subset carrier x 3 namespace assignments x {NEXUS titles None/False, NeXML} incl. "
-        "matrix_offset reads, or one taxon label in a 2-row matrix; "
+        "matrix_offset reads, or one use history (first use of the source in {str, symbols_as_string, symbols_as_list, "
+        "values, write to each format} x derivation {none, export indices/subset, concatenate, copy-construct, deepcopy, "
+        "scoped copy, del cell, del slice} x sequence mutator {append, extend, __setitem__, insert, __delitem__, del slice, "
+        "set_at} x target format, judged against the same steps on fresh objects), or one taxon label in a 2-row matrix; "
         "matrices: every symbol of the type's symbol set at 1x1, all ordered tuples at 1x2, 2x1, 2x2-diagonal and (per tier) "
         "1x3, 3x1, 1x4, cyclic fills of every r x c up to the tier bound at every alphabet offset, ragged rows (FASTA/NeXML), "
         "wrap-boundary lengths, multistate tokens, namespaces with an unsequenced member; non-trivial = "
@@ -405,6 +408,8 @@ def _value(dtype, row):
 
 def build_matrix(case):
     """Returns the dendropy matrix for the case descriptor."""
+    if case["route"] == "history":
+        return build_with_history(case)
     dtype, labels, rows = case["dtype"], case["labels"], case["rows"]
     route, nsconf = case["route"], case.get("nsconf", "exact")
     cls = _cls(dtype)
@@ -452,7 +457,149 @@ def build_matrix(case):
 
 def expected_of(case):
     dtype = case["dtype"]
-    return list(case["labels"]), [[canonical(dtype, x) for x in row] for row in case["rows"]]
+    rows = [list(r) for r in case["rows"]]
+    if case.get("edit", "none") != "none":
+        v, w = edit_values(dtype)
+        for r in rows:
+            model_edit(case["edit"], r, v, w)
+    return list(case["labels"]), [[canonical(dtype, x) for x in row] for row in rows]
+
+
+# -- use history: a matrix (or its source) is rendered / written first, then derived, then edited ---------------
+
+USES = ["none", "str", "symbols_as_string", "symbols_as_list", "values", "write:nexus", "write:phylip", "write:fasta",
+        "write:nexml"]
+DERIVATIONS = ["none", "export", "export-subset", "concat", "copy", "deepcopy", "scoped-copy", "del", "del-slice"]
+EDITS = ["none", "append", "extend", "setitem", "insert", "delitem", "del-slice", "set_at"]
+HISTORY_TARGETS = ["nexus", "phylip-relaxed", "phylip-strict", "fasta", "nexml", "nexml-seqs"]
+
+
+def edit_values(dtype):
+    a = alphabet(dtype)
+    return a[-1], a[1 % len(a)]
+
+
+def model_edit(edit, row, v, w):
+    """The reference semantics of the list-like mutators, on a plain list."""
+    if edit == "append":
+        row.append(v)
+    elif edit == "extend":
+        row.extend([v, w])
+    elif edit == "setitem":
+        row[0] = v
+    elif edit == "insert":
+        row.insert(1, v)
+    elif edit == "delitem":
+        del row[0]
+    elif edit == "del-slice":
+        del row[0:2]
+    elif edit == "set_at":
+        row[len(row) - 1] = w
+    else:
+        raise ValueError(edit)
+
+
+def _apply_use(m, use):
+    if use == "none":
+        return
+    if use.startswith("write:"):
+        try:
+            m.as_string(schema=use.split(":")[1])
+        except Exception:
+            pass                      # the type may not be writable in that format: then it simply was not used
+        return
+    for taxon in m:
+        seq = m[taxon]
+        if use == "str":
+            str(seq)
+        elif use == "symbols_as_string":
+            seq.symbols_as_string()
+            seq.symbols_as_string(sep=" ")
+        elif use == "symbols_as_list":
+            seq.symbols_as_list()
+        elif use == "values":
+            list(seq.values())
+            list(iter(seq))
+
+
+def build_with_history(case):
+    """use the source -> derive -> edit the derived matrix's sequences; returns the derived matrix."""
+    dtype, labels, rows = case["dtype"], case["labels"], case["rows"]
+    use, derive, edit = case["use"], case["derive"], case.get("edit", "none")
+    cls = _cls(dtype)
+    junk = alphabet(dtype)[0]
+    ns = dendropy.TaxonNamespace()
+    for l in labels:
+        ns.add_taxon(dendropy.Taxon(label=l))
+
+    def from_rows(rws):
+        d = collections.OrderedDict((l, _value(dtype, r)) for l, r in zip(labels, rws))
+        return cls.from_dict(d, taxon_namespace=ns, case_sensitive_taxon_labels=True)
+    ncols = len(rows[0])
+    if derive in ("export", "export-subset"):
+        src = from_rows([[junk] + [y for x in r for y in (x, junk)] for r in rows])
+        _apply_use(src, use)
+        idx = [2 * j + 1 for j in range(ncols)]
+        if derive == "export":
+            m = src.export_character_indices(idx)
+        else:
+            src.new_character_subset(label="part", character_indices=idx)
+            m = src.export_character_subset("part")
+    elif derive == "concat":
+        k = ncols // 2
+        m1, m2 = from_rows([r[:k] for r in rows]), from_rows([r[k:] for r in rows])
+        _apply_use(m1, use)
+        _apply_use(m2, use)
+        m = cls.concatenate([m1, m2])
+    elif derive in ("del", "del-slice"):
+        n = 1 if derive == "del" else 2
+        m = from_rows([[junk] * n + list(r) for r in rows])
+        _apply_use(m, use)
+        for taxon in m:
+            if derive == "del":
+                del m[taxon][0]
+            else:
+                del m[taxon][0:2]
+    else:
+        src = from_rows(rows)
+        _apply_use(src, use)
+        if derive == "none":
+            m = src
+        elif derive == "copy":
+            m = cls(src)
+        elif derive == "deepcopy":
+            import copy
+            m = copy.deepcopy(src)
+        elif derive == "scoped-copy":
+            m = src.clone(1)
+        else:
+            raise ValueError(derive)
+    if derive != "none":
+        _apply_use(m, use if edit != "none" else "none")     # the derived matrix is used too before it is edited
+    if edit != "none":
+        v, w = edit_values(dtype)
+        if dtype != "continuous":
+            sa = m.default_state_alphabet
+            if edit in ("append", "extend", "setitem", "insert", "set_at"):
+                # take the state objects from a cell of the matrix's own alphabet family
+                v, w = sa[v], sa[w]
+        for taxon in m:
+            seq = m[taxon]
+            if edit == "append":
+                seq.append(v)
+            elif edit == "extend":
+                seq.extend([v, w])
+            elif edit == "setitem":
+                seq[0] = v
+            elif edit == "insert":
+                seq.insert(1, v)
+            elif edit == "delitem":
+                del seq[0]
+            elif edit == "del-slice":
+                del seq[0:2]
+            elif edit == "set_at":
+                seq.set_at(len(seq) - 1, w)
+    return m
 
 
 # ---------------------------------------------------------------------------
@@ -596,6 +743,15 @@ def baseline_of(case):
         c = dict(case, nsconf="exact")
         c.pop("layer")
         return c
+    if layer == "after-use":
+        # drop one factor at a time; every level is itself enumerated and judged against the next one
+        if case["use"] != "none":
+            return dict(case, use="none")
+        if case.get("edit", "none") != "none":
+            return dict(case, edit="none")
+        plain = {"export": "export", "export-subset": "export", "copy": "copy", "concat": "concat"}.get(case["derive"], "dict")
+        return {"kind": "rt", "dtype": case["dtype"], "labels": case["labels"], "rows": case["rows"], "route": plain,
+                "target": case["target"]}
     if layer == "label":
         labs = list(case["labels"])
         labs[case.get("label_pos", 0)] = "xy"
@@ -614,7 +770,10 @@ def check_rt(case, ctx):
         known = set(sig for sig, _ in run_isolated(base))
         found = [(sig, msg) for sig, msg in found if sig not in known]
     for sig, msg in found:
-        if sig.startswith("route|"):
+        if layer == "after-use":
+            step = case["edit"] if case.get("edit", "none") != "none" else case["derive"]
+            ctx.violation("after-use|%s|%s|%s" % (case["use"], step, sig), msg, case)
+        elif sig.startswith("route|"):
             ctx.violation(sig, msg, case)
         elif layer == "label":
             ctx.violation("label|%s|%s" % (sig, _culprit(case, sig)), msg, case)
@@ -740,6 +899,8 @@ def chunks(tier):
         out.append({"kind": "labelsets", "dtype": dtype, "tier": tier})
         out.append({"kind": "ragged", "dtype": dtype, "tier": tier})
         out.append({"kind": "nsconf", "dtype": dtype, "tier": tier})
+        for use in USES:
+            out.append({"kind": "history", "dtype": dtype, "use": use, "tier": tier})
         if dtype in MULTISTATE_ROWS:
             out.append({"kind": "multistate", "dtype": dtype, "tier": tier})
     out.append({"kind": "fasta-continuous-probe", "tier": tier})
@@ -766,7 +927,8 @@ def chunks(tier):
 
 def _rt(case, ctx):
     key = (case["dtype"], case["route"], case["target"], case.get("nsconf", "exact"), case.get("layer", "matrix"),
-           tuple(case["labels"]), tuple(tuple(r) for r in case["rows"]))
+           tuple(case["labels"]), tuple(tuple(r) for r in case["rows"]),
+           case.get("use"), case.get("derive"), case.get("edit"))
     ctx.case(key)
     out = check_rt(case, ctx)
     ctx.count("round_trips")
@@ -839,6 +1001,18 @@ def gen_long(chunk):
         for route in ("dict", "concat"):
             for v in variants_for(dtype):
                 yield {"kind": "rt", "dtype": dtype, "labels": SIMPLE_LABELS[:2], "rows": rows, "route": route, "target": v}
+
+
+def gen_history(chunk):
+    dtype, use = chunk["dtype"], chunk["use"]
+    rows = cyclic(dtype, 2, 4, 1)
+    for derive in DERIVATIONS:
+        for edit in EDITS:
+            if use == "none" and edit == "none" and derive in ("none", "export", "concat", "copy"):
+                continue              # these are the plain routes of the fills layer
+            for v in variants_for(dtype, HISTORY_TARGETS):
+                yield {"kind": "rt", "layer": "after-use", "dtype": dtype, "labels": SIMPLE_LABELS[:2], "rows": rows,
+                       "route": "history", "use": use, "derive": derive, "edit": edit, "target": v}
 
 
 RAGGED = [(1, 2), (2, 1), (3, 1, 2), (1, 3, 3)]
@@ -1383,7 +1557,7 @@ def gen_datasets(chunk):
 # ---------------------------------------------------------------------------
 
 GENERATORS = {"cells": gen_cells, "fills": gen_fills, "long": gen_long, "labelsets": gen_labelsets, "ragged": gen_ragged,
-              "nsconf": gen_nsconf, "multistate": gen_multistate, "labels1": gen_labels1, "labels2": gen_labels2,
+              "nsconf": gen_nsconf, "multistate": gen_multistate, "history": gen_history, "labels1": gen_labels1, "labels2": gen_labels2,
               "labels3": gen_labels3}
 
 
